@@ -23,18 +23,28 @@ class _Attr:
         raise core.Unsupported(f"shapely model: attribute {name}")
 
 
+def _mk(S, poly):
+    """a ShapelyPolygon / ShapelyBoundary pair around the polygon model: the shapely-specific parts of the constructors
+    (vertex handling, outline, normals) are skipped, the base-class constructors Domain.__init__ /
+    BoundaryDomain.__init__ are the real ones"""
+    dom = S.I.new_without_init(S.find(SP))
+    S.call(S.getattr(S.find("torchphysics.problem.domains.domain.Domain"), "__init__"), dom, S.new(R2, "x"), 2)
+    dom.f["polygon"] = poly
+    dom.f["necessary_variables"] = set()
+    bd = S.I.new_without_init(S.find(SB))
+    S.call(S.getattr(S.find("torchphysics.problem.domains.domain.BoundaryDomain"), "__init__"), bd, dom)
+    return dom, bd
+
+
 @scenario("C10", [SP + "._get_volume", SB + "._get_volume"], configs=["polygon-with-holes"])
 def shapely_measures_are_the_area_and_the_length_of_all_rings(S):
     area, lall, lext = S.real("area"), S.real("length_of_all_rings"), S.real("length_of_the_outer_ring")
     S.assume(z3.And(area.t > 0, lext.t > 0, lext.t < lall.t))
     poly = _Attr(area=area, boundary=_Attr(length=lall), exterior=_Attr(length=lext))
-    dom = S.I.new_without_init(S.find(SP))
-    dom.f.update({"polygon": poly, "space": S.new(R2, "x"), "dim": 2, "_user_volume": None, "necessary_variables": set()})
+    dom, bd = _mk(S, poly)
     v = S.method(dom, "volume").val
     S.ensure("volume-is-one-number", v.numel_concrete() == 1)
     S.ensure("volume-is-the-polygon-area", zreal(v.at([() for _ in v.shape])) == area.t)
-    bd = S.I.new_without_init(S.find(SB))
-    bd.f.update({"domain": dom, "space": dom.f["space"], "dim": 1, "_user_volume": None, "necessary_variables": set()})
     vb = S.method(bd, "volume").val
     S.ensure("boundary-measure-is-one-number", vb.numel_concrete() == 1)
     S.ensure("boundary-measure-is-the-length-of-all-rings-including-holes", zreal(vb.at([() for _ in vb.shape])) == lall.t)
@@ -53,10 +63,7 @@ def shapely_boundary_density_sampling_counts_with_the_boundary_measure(S):
     dens = S.real("density")
     S.assume(dens.t > 0)
     poly = _Attr(area=area, boundary=_Attr(length=lall), exterior=_Attr(length=lext))
-    dom = S.I.new_without_init(S.find(SP))
-    dom.f.update({"polygon": poly, "space": S.new(R2, "x"), "dim": 2, "_user_volume": None, "necessary_variables": set()})
-    bd = S.I.new_without_init(S.find(SB))
-    bd.f.update({"domain": dom, "space": dom.f["space"], "dim": 1, "_user_volume": None, "necessary_variables": set()})
+    dom, bd = _mk(S, poly)
     seen = []
 
     def walk(I, fn, args, kwargs):
